@@ -123,6 +123,11 @@ def gen(rng, tier):
         have = [x for _, x, _ in c["sec"]["streams"]]
         want = have[:2] + [0] if rng.random() < 0.7 else [9]
         out.append(Case("pmt.filter %s %s" % (pl_req, fmt_val(want)), kind="fid-" + mode, decides=False, nontrivial=False))
+        # a packet of another PID inside the list (the filter concatenates every payload it is given)
+        toks = pl_req.split()
+        if len(toks) > 2:
+            toks.insert(2, hx(L.other_packet(rng, 256)))
+            out.append(Case("pmt.filter %s %s" % (" ".join(toks), fmt_val(want)), kind="fid-mixed-pids", decides=False, nontrivial=False))
         # a packet without the payload flag in the list
         toks = pl_req.split()
         if len(toks) > 2:
